@@ -136,7 +136,7 @@ theorem busy_below {c : Cfg} (w : CoreA.WF c) {st : StB} (hA : InvA c st.a) (hB 
 
 /-- the body of a running atomic job may end, or acknowledge its cancellation -/
 theorem en_body {c : Cfg} (w : CoreA.WF c) {st : StB} {j : Nat} (hjn : j < c.n) (hjs : c.isSched j = false)
-    (hr : st.a.ph j = .running) : ∃ e st', (∀ d, e ≠ .tick d) ∧ stepB c st e = some st' := by
+    (hr : st.a.ph j = .running) : ∃ e st', internalEv e ∧ stepB c st e = some st' := by
   have hj0 : 0 < j := by
     apply Nat.pos_of_ne_zero
     intro h; subst h; rw [w.sched0] at hjs; cases hjs
@@ -150,7 +150,7 @@ theorem en_body {c : Cfg} (w : CoreA.WF c) {st : StB} {j : Nat} (hjn : j < c.n) 
     have : ∃ st', stepB c st (.bodyEnd j true) = some st' := by
       simp only [stepB, ha]; exact ⟨_, rfl⟩
     obtain ⟨st', hs⟩ := this
-    exact ⟨.bodyEnd j true, st', not_tick_of trivial, hs⟩
+    exact ⟨.bodyEnd j true, st', trivial, hs⟩
   | true =>
     have : ∃ a', stepA c st.a (.cancelAck j) = some a' := by
       simp only [stepA]
@@ -160,11 +160,11 @@ theorem en_body {c : Cfg} (w : CoreA.WF c) {st : StB} {j : Nat} (hjn : j < c.n) 
     have : ∃ st', stepB c st (.cancelAck j) = some st' := by
       simp only [stepB, ha]; exact ⟨_, rfl⟩
     obtain ⟨st', hs⟩ := this
-    exact ⟨.cancelAck j, st', not_tick_of trivial, hs⟩
+    exact ⟨.cancelAck j, st', trivial, hs⟩
 
 /-- the shutdown handler of an atomic job may end, or acknowledge its cancellation -/
 theorem en_handler {c : Cfg} (w : CoreA.WF c) {st : StB} {j : Nat} (hjn : j < c.n) (hjs : c.isSched j = false)
-    (hh : st.hph j = .hactive) : ∃ e st', (∀ d, e ≠ .tick d) ∧ stepB c st e = some st' := by
+    (hh : st.hph j = .hactive) : ∃ e st', internalEv e ∧ stepB c st e = some st' := by
   have hj0 : 0 < j := by
     apply Nat.pos_of_ne_zero
     intro h; subst h; rw [w.sched0] at hjs; cases hjs
@@ -175,21 +175,22 @@ theorem en_handler {c : Cfg} (w : CoreA.WF c) {st : StB} {j : Nat} (hjn : j < c.
       rw [if_pos ⟨hj0, hjn, hjs, hh, hc⟩]
       exact ⟨_, rfl⟩
     obtain ⟨st', hs⟩ := this
-    exact ⟨.hEnd j, st', not_tick_of trivial, hs⟩
+    exact ⟨.hEnd j, st', trivial, hs⟩
   | true =>
     have : ∃ st', stepB c st (.hCancelAck j) = some st' := by
       simp only [stepB]
       rw [if_pos ⟨hj0, hjn, hjs, hh, hc⟩]
       exact ⟨_, rfl⟩
     obtain ⟨st', hs⟩ := this
-    exact ⟨.hCancelAck j, st', not_tick_of trivial, hs⟩
+    exact ⟨.hCancelAck j, st', trivial, hs⟩
 
-/-- while the top-level run is unfinished, some event other than the passing of time is enabled -/
-theorem work_enabled (c : Cfg) (hwf : c.wf = true) (evs : List EvB) (st : StB)
+/-- while the top-level run is unfinished, some event of the run itself — neither the passing of time, nor a
+    cancellation from outside — is enabled -/
+theorem work_enabled_internal (c : Cfg) (hwf : c.wf = true) (evs : List EvB) (st : StB)
     (h : acceptB c StB.init evs = some st) (hb : st.pcB 0 ≠ .notBegun) (ho : st.pcB 0 ≠ .over) :
-    ∃ e st', (∀ d, e ≠ .tick d) ∧ stepB c st e = some st' := by
+    ∃ e st', internalEv e ∧ stepB c st e = some st' := by
   cases hq : quietB c st with
-  | false => exact urgent_enabled c hwf evs st h hq
+  | false => exact urgent_enabled_internal c hwf evs st h hq
   | true =>
     have hA := invA_of_reachB c hwf evs st h
     have hB := invB_reach c hwf evs st h
@@ -201,6 +202,13 @@ theorem work_enabled (c : Cfg) (hwf : c.wf = true) (evs : List EvB) (st : StB)
     · exact en_body w hjn hjs hr
     · exact en_handler w hjn hjs hh
 
+/-- while the top-level run is unfinished, some event other than the passing of time is enabled -/
+theorem work_enabled (c : Cfg) (hwf : c.wf = true) (evs : List EvB) (st : StB)
+    (h : acceptB c StB.init evs = some st) (hb : st.pcB 0 ≠ .notBegun) (ho : st.pcB 0 ≠ .over) :
+    ∃ e st', (∀ d, e ≠ .tick d) ∧ stepB c st e = some st' := by
+  obtain ⟨e, st', hi, hs⟩ := work_enabled_internal c hwf evs st h hb ho
+  exact ⟨e, st', hi.not_tick, hs⟩
+
 theorem isTick_false {e : EvB} (h : ∀ d, e ≠ .tick d) : isTick e = false := by
   cases e <;> first | rfl | exact absurd rfl (h _)
 
@@ -208,15 +216,16 @@ theorem isTick_false {e : EvB} (h : ∀ d, e ≠ .tick d) : isTick e = false := 
 
 theorem finish_of_mu (c : Cfg) (hwf : c.wf = true) :
     ∀ n (evs : List EvB) (st : StB), acceptB c StB.init evs = some st → st.pcB 0 ≠ .notBegun → mu c st ≤ n →
-      ∃ evs' st', acceptB c st evs' = some st' ∧ st'.pcB 0 = .over := by
+      ∃ evs' st', acceptB c st evs' = some st' ∧ st'.pcB 0 = .over ∧ ∀ e ∈ evs', internalEv e := by
   intro n
   induction n with
   | zero =>
     intro evs st h hb hm
     by_cases ho : st.pcB 0 = .over
-    · exact ⟨[], st, rfl, ho⟩
+    · exact ⟨[], st, rfl, ho, fun _ h => by cases h⟩
     · exfalso
-      obtain ⟨e, st1, hnt, hs⟩ := work_enabled c hwf evs st h hb ho
+      obtain ⟨e, st1, hi, hs⟩ := work_enabled_internal c hwf evs st h hb ho
+      have hnt := hi.not_tick
       have hA := invA_of_reachB c hwf evs st h
       have hB := invB_reach c hwf evs st h
       have := mu_step c hwf st st1 e hA hB hs
@@ -226,26 +235,42 @@ theorem finish_of_mu (c : Cfg) (hwf : c.wf = true) :
   | succ n ih =>
     intro evs st h hb hm
     by_cases ho : st.pcB 0 = .over
-    · exact ⟨[], st, rfl, ho⟩
-    · obtain ⟨e, st1, hnt, hs⟩ := work_enabled c hwf evs st h hb ho
+    · exact ⟨[], st, rfl, ho, fun _ h => by cases h⟩
+    · obtain ⟨e, st1, hi, hs⟩ := work_enabled_internal c hwf evs st h hb ho
+      have hnt := hi.not_tick
       have hA := invA_of_reachB c hwf evs st h
       have hB := invB_reach c hwf evs st h
       have hmu := mu_step c hwf st st1 e hA hB hs
       rw [isTick_false hnt] at hmu
       simp at hmu
       have hb1 := begun_step c hwf st st1 e hA hB hs 0 hb
-      obtain ⟨evs', st', hacc, hov⟩ := ih (evs ++ [e]) st1 (acceptB_snoc h hs) hb1 (by omega)
-      refine ⟨e :: evs', st', ?_, hov⟩
-      simp only [acceptB, hs]
-      exact hacc
+      obtain ⟨evs', st', hacc, hov, hint⟩ := ih (evs ++ [e]) st1 (acceptB_snoc h hs) hb1 (by omega)
+      refine ⟨e :: evs', st', ?_, hov, ?_⟩
+      · simp only [acceptB, hs]
+        exact hacc
+      · intro e' he'
+        rcases List.mem_cons.1 he' with rfl | h'
+        · exact hi
+        · exact hint e' h'
 
 /-- C03: from every reachable state in which `run()` has begun there is a finite continuation — made of events the
     model accepts: reactions of the schedulers, ends of job bodies and shutdown handlers, acknowledgements of
     cancellations, the passing of time up to the next deadline — after which the top-level run is over -/
 theorem can_always_finish (c : Cfg) (hwf : c.wf = true) (evs : List EvB) (st : StB)
     (h : acceptB c StB.init evs = some st) (hb : st.pcB 0 ≠ .notBegun) :
-    ∃ evs' st', acceptB c st evs' = some st' ∧ st'.pcB 0 = .over :=
-  finish_of_mu c hwf (mu c st) evs st h hb (Nat.le_refl _)
+    ∃ evs' st', acceptB c st evs' = some st' ∧ st'.pcB 0 = .over := by
+  obtain ⟨evs', st', h1, h2, _⟩ := finish_of_mu c hwf (mu c st) evs st h hb (Nat.le_refl _)
+  exact ⟨evs', st', h1, h2⟩
+
+/-- … and the run needs no help from outside for that: the continuation can be chosen without any `extCancel` (and, as
+    before, without any `tick`): whether or not the top-level task was cancelled from outside earlier on, the run can
+    finish by itself -/
+theorem can_always_finish_unaided (c : Cfg) (hwf : c.wf = true) (evs : List EvB) (st : StB)
+    (h : acceptB c StB.init evs = some st) (hb : st.pcB 0 ≠ .notBegun) :
+    ∃ evs' st', acceptB c st evs' = some st' ∧ st'.pcB 0 = .over ∧
+      EvB.extCancel ∉ evs' ∧ ∀ d, EvB.tick d ∉ evs' := by
+  obtain ⟨evs', st', h1, h2, h3⟩ := finish_of_mu c hwf (mu c st) evs st h hb (Nat.le_refl _)
+  exact ⟨evs', st', h1, h2, fun hm => (h3 _ hm).not_ext rfl, fun d hm => (h3 _ hm).not_tick d rfl⟩
 
 end AJ.Proofs.FinB
 
